@@ -64,6 +64,8 @@ def translate(case, model):
                     % (kind, "true" if f[2] == "1" else "false", "true" if f[3] == "1" else "false", cls))
         if k == "c04lock":
             return "Bool.eqb tick_waits_during_command %s" % ("true" if m[1] == "waits=true" else "false")
+        if k == "c04gap":
+            return "Bool.eqb gap_saves_without_password %s" % ("true" if m[1].endswith("=true") else "false")
         if k == "c04rounds":
             t1, m1, t2, m2 = f[1], f[2], f[3], f[4]
             def cfgterm(i, t, ms):
